@@ -198,6 +198,16 @@ fn run_fn(name: &str, f: &[Vec<u8>]) -> (String, Vec<Vec<u8>>) {
                 let (code, edit) = model_sdpl.get_code_edit();
                 vec![quote::quote!{ #code }.to_string().into_bytes(), quote::quote!{ #edit }.to_string().into_bytes()]
             }
+            "combined_ident" => {
+                // arguments: one identifier per field
+                let ids = f.iter().map(|x| syn::parse_str::<syn::Ident>(&s(x)).expect("not an ident")).collect::<Vec<_>>();
+                vec![crate::model::name::combined_ident(ids).to_string().into_bytes()]
+            }
+            "sig_wide" => {
+                // model::to_string_wide of a signature: the text model::includes / model::replace search in
+                let sig = syn::parse_str::<syn::Signature>(&arg(0)).expect("not a signature");
+                vec![crate::model::to_string_wide(&sig).into_bytes()]
+            }
             _ => panic!("unknown fn job {}", name),
         }
     }));
